@@ -351,10 +351,9 @@ theorem resetLoop_inv (O : Oracle) (c : Conf) : ∀ (d : List DLease) (s : State
     intro s h hip hmac hpool hfresh
     rw [List.map_cons, List.nodup_cons] at hip hmac
     unfold resetLoop
-    simp only []
     have hrest : ∀ z ∈ rest, ∀ y ∈ s.fresh.2.leases, y.ip ≠ z.ip ∧ y.mac ≠ z.mac :=
       fun z hz y hy => hfresh z (List.mem_cons_of_mem _ hz) y hy
-    cases hadd : addLease c { id := s.nextId, mac := x.mac, ip := x.ip, host := (if x.static = true then x.host else validHost O x.host x.ip), static := x.static, exp := x.exp } s.fresh.2 with
+    cases hadd : addLease c (loadLease O c x s.nextId) s.fresh.2 with
     | error e =>
       exact ih _ (Inv_fresh h) hip.2 hmac.2 (fun z hz => hpool z (List.mem_cons_of_mem _ hz)) hrest
     | ok s' =>
@@ -362,7 +361,7 @@ theorem resetLoop_inv (O : Oracle) (c : Conf) : ∀ (d : List DLease) (s : State
         refine Inv_add (Inv_fresh h) hadd ?_ ?_ ?_ ?_
         · intro y hy; exact (hfresh x List.mem_cons_self y hy).1
         · intro y hy; exact (hfresh x List.mem_cons_self y hy).2
-        · simp [State.fresh]
+        · simp [State.fresh, loadLease]
         · intro y hy
           have : y.id < s.nextId := h.idLt y hy
           show y.id ≠ s.nextId
@@ -425,6 +424,7 @@ theorem Inv_step {O : Oracle} {c : Conf} {s : State} {op : Op} (h : Inv c s) :
   | rmStatic mac ip hn => exact rmStatic_inv h0
   | sleep d => exact Inv_congr h0 rfl rfl rfl rfl rfl rfl
   | restart => exact restart_inv h0
+  | reorder d => exact Inv_reorder d h0
 
 /-! ### histories -/
 
